@@ -293,6 +293,8 @@ class FnView:
         if k == "index":
             return ("index", T(n["e"]), T(n["i"]))
         if k == "bin":
+            if n["op"] == "+" and n.get("ty", "").endswith("string::String"):
+                return ("concat", T(n["l"]), T(n["r"]))
             return mk_bin(n["op"], T(n["l"]), T(n["r"]))
         if k == "tup":
             return ("tup",) + tuple(T(x) for x in n.get("es", []))
@@ -1364,7 +1366,12 @@ def sym_paths(fv, root, limit=60000):
                 elif k == "let":
                     p = n["pat"]
                     if p.get("k") == "pbind" and n.get("init") is not None:
-                        st[("local", p["name"], p["id"])] = cur(fv.term(n["init"]))
+                        if n["init"].get("k") in ("if", "match", "block") and sp.value is not None:
+                            # the initialiser is a control expression: its value on THIS path is the branch value
+                            st[("local", p["name"], p["id"])] = sp.value
+                            sp.value = None
+                        else:
+                            st[("local", p["name"], p["id"])] = cur(fv.term(n["init"]))
                 elif k == "mcall":
                     rv = fv.term(n["recv"])
                     name = cname(n).split("::")[-1]
@@ -1507,3 +1514,72 @@ def subst_plain(t, env):
     if t and t[0] == "bin" and len(t) == 4:
         return mk_bin(t[1], subst_plain(t[2], env), subst_plain(t[3], env))
     return tuple(subst_plain(x, env) if isinstance(x, tuple) else x for x in t)
+
+
+
+# ------------------------------------------------------------------ string values as piece lists
+
+def _merge_lits(ps):
+    out = []
+    for p in ps:
+        if p[0] == "lit" and out and out[-1][0] == "lit":
+            out[-1] = ("lit", out[-1][1] + p[1])
+        elif p[0] == "lit" and p[1] == "":
+            continue
+        else:
+            out.append(p)
+    return out
+
+
+def string_pieces(fv, t, _depth=0):
+    """Canonical description of how a String value is put together: a list of ("lit", text) / ("term", t) /
+    ("fmt", spec, t) pieces.  Understands format!, `a + b`, `.to_string()` on literals, String::new(), and mutable
+    locals that are initialised and then extended with push / push_str (in statement order)."""
+    if _depth > 12 or not isinstance(t, tuple):
+        return [("term", t)]
+    h = t[0]
+    if h == "lit" and isinstance(t[1], str):
+        return [("lit", t[1])]
+    if h == "concat":
+        return _merge_lits(string_pieces(fv, t[1], _depth + 1) + string_pieces(fv, t[2], _depth + 1))
+    if h == "format":
+        out = []
+        for p in t[1]:
+            if p[0] == "lit":
+                out.append(("lit", p[1]))
+            elif p[0] == "arg":
+                a = t[2][p[1]]
+                if p[2] == "display" and p[3] is None and p[4] is None:
+                    out.extend(string_pieces(fv, a, _depth + 1) if _is_stringy(a) else [("term", a)])
+                else:
+                    out.append(("fmt", (p[2], p[3], p[4]), a))
+            else:
+                out.append(("term", p))
+        return _merge_lits(out)
+    if h == "call" and t[1].split("::")[-1] in ("to_string", "to_owned", "from", "into") and len(t) == 3 and t[2][0] == "lit" \
+            and isinstance(t[2][1], str):
+        return [("lit", t[2][1])]
+    if h == "call" and t[1].endswith("String::new") and len(t) == 2:
+        return []
+    if h == "local":
+        b = fv.binds.get(t[2])
+        if b is not None and b["val"][0] == "node" and b["val"][1] is not None:
+            ps = string_pieces(fv, fv.term(b["val"][1]), _depth + 1)
+            # appends through &mut self methods, in source order
+            for n in fv.nodes:
+                if n.get("k") == "mcall" and n["recv"].get("k") == "local" and n["recv"].get("id") == t[2]:
+                    m = cname(n).split("::")[-1]
+                    if m == "push_str":
+                        ps = ps + string_pieces(fv, fv.term(n["args"][0]), _depth + 1)
+                    elif m == "push":
+                        a = fv.term(n["args"][0])
+                        ps = ps + ([("lit", a[1])] if a[0] == "lit" and isinstance(a[1], str) else [("term", a)])
+                    elif m in ("clear", "truncate", "insert", "insert_str", "pop", "remove"):
+                        return [("term", t)]
+            return _merge_lits(ps)
+    return [("term", t)]
+
+
+def _is_stringy(t):
+    return t[0] in ("concat", "format") or (t[0] == "lit" and isinstance(t[1], str)) or \
+        (t[0] == "call" and t[1].split("::")[-1] in ("join", "concat", "to_string", "to_owned"))
